@@ -109,6 +109,22 @@ CHECKS['C03'] = dict(
          '(_begin_betting); asserts inside operations are C07 obligations.',
     technique='sidecar contracts + own VC generator over the real AST + z3 against an independent rule spec; native replay of counter-models')
 
+CHECKS['C13'] = dict(
+    category='proof',
+    text='State._begin_betting is executed symbolically once for ALL opening rules (the street opening is a symbolic enum member), with every '
+         'stack, bet, blind/straddle/post entry, up-card (rank and suit) and live flag symbolic, and compared with spec/opening.py written from '
+         'the statement: button games -- first round from the seat after the last blind or straddle (heads-up seat reversal, posts not '
+         'counting), later rounds from the first seat after the button; stud -- lowest up-card (highest in razz) with suits breaking ties, '
+         'later the best exposed hand (lowest in razz) with ties to the earliest position; in every case the queue runs clockwise from the '
+         'designated opener over the players able to act; the history fields of the round are reset (base case of the C03 induction); the '
+         'round is skipped exactly when a single matched player could act.',
+    design_ref='DESIGN.md section 4 (C13), section 8',
+    note='D/shape: (n, hole cards) in {(2,2),(3,1),(4,1)} quick, up to (6,1),(3,2),(2,3) thorough. First round of a button game assumes a '
+         'standard layout (blinds/straddles adjacent, not decreasing with the position, posts after them) with the owed blinds in front; the '
+         'opening lookups are abstracted to an optional strength per exposed hand (their tables are checked exhaustively under C04); one '
+         'known finding (F10c) sits in its own clause.',
+    technique='sidecar contracts + own VC generator over the real AST + z3 against an independent rule spec; native replay of counter-models')
+
 NOT_APPLICABLE = {
     'C20': 'regex-driven text importers against external site formats; no contract within reach expresses or decides it (DESIGN.md section 5)',
 }
